@@ -31,7 +31,9 @@ def build_and_run(driver, defines, copy, work, tag, timeout=120):
     inc, hdr = HDR.get(copy if copy in HDR else 'include')
     exe = os.path.join(work, 'replay_%s' % tag)
     # indeterminate members only show their prior memory contents reliably without optimisation
-    cmd = ['g++', '-std=c++11', '-O0' if driver == 'memory_model.cpp' else '-O1', '-I', inc, '-DFFSM2_HEADER=' + hdr] + ['-D' + d for d in defines] + [os.path.join(HERE, 'replay', driver), '-o', exe]
+    flags = [d[1:] for d in defines if d.startswith('@')]
+    defines = [d for d in defines if not d.startswith('@')]
+    cmd = ['g++', '-std=c++11', '-O0' if driver == 'memory_model.cpp' else '-O1', '-I', inc, '-DFFSM2_HEADER=' + hdr] + flags + ['-D' + d for d in defines] + [os.path.join(HERE, 'replay', driver), '-o', exe]
     p = subprocess.run(cmd, stdout=subprocess.PIPE, stderr=subprocess.PIPE)
     if p.returncode != 0:
         return None, {'build_failed': p.stderr.decode()[-1500:], 'cmd': ' '.join(cmd)}
@@ -40,10 +42,15 @@ def build_and_run(driver, defines, copy, work, tag, timeout=120):
     except subprocess.TimeoutExpired:
         return None, {'timeout': True, 'cmd': ' '.join(cmd)}
     out = r.stdout.decode(errors='replace').strip()
-    return r.returncode, {'cmd': ' '.join(cmd), 'output': out[-2000:], 'exit': r.returncode}
+    err = r.stderr.decode(errors='replace').strip()
+    info = {'cmd': ' '.join(cmd), 'output': out[-2000:], 'exit': r.returncode}
+    if err:
+        info['stderr'] = err[:1500]      # sanitizer report
+    return r.returncode, info
 
 
 def search(prop, violations, work):
+    tried = {}      # (driver, defines, copy) -> outcome: every driver configuration is built and run once per check
     for v in violations:
         fam = family(v['unit'])
         if prop in ('C15', 'C16') and re.search(r'^(structure|control)\.', v['unit']):
@@ -55,9 +62,19 @@ def search(prop, violations, work):
         if fam is None:
             continue
         v = dict(v, prop=prop)
-        driver, cfgs = fam(v)
-        for i, defs in enumerate(cfgs):
+        plans = []
+        for f in ([fam] + ([fam_planstep] if fam is fam_plan and prop == 'C18' else []) + ([fam_serial_big] if fam in (fam_serial, fam_serial_then_stream) else [])):
+            driver, cfgs = f(v)
+            if prop == 'C18':
+                # memory safety: the same drivers under AddressSanitizer (alignment excluded: known finding F5)
+                cfgs = [c + ['@-fsanitize=address,bounds', '@-fno-sanitize-recover=all', '@-g'] for c in cfgs]
+            plans += [(driver, c) for c in cfgs]
+        for i, (driver, defs) in enumerate(plans):
+            tk = (driver, tuple(defs), v.get('copy', 'include'))
+            if tk in tried:
+                continue
             rc, info = build_and_run(driver, defs, v.get('copy', 'include'), work, '%s_%d' % (re.sub(r'\W', '_', v['unit']), i))
+            tried[tk] = rc
             # a driver reports a divergence by exit code 1..125 (and a JSON line); death by signal is not a reproduction
             # (it would not distinguish the library from the driver)
             if rc is not None and 0 < rc < 126:
@@ -111,7 +128,7 @@ def fam_dynarray(v):
     return 'dynarray_model.cpp', [['CAP=%d' % c] for c in _caps(v, ['DynamicArrayT__NCapacity', 'StaticArrayT__NCapacity'], [5, 16, 1, 255])]
 
 
-ORACLE_MASK = {'C01': 1, 'C02': 2, 'C03': 2, 'C04': 6, 'C11': 10, 'C06': 16, 'C07': 32, 'C05': 64, 'C14': 1 | 64, 'C15': 0, 'C16': 128, 'C18': 0xFF}
+ORACLE_MASK = {'C01': 1, 'C02': 2, 'C03': 2, 'C04': 6, 'C11': 10, 'C06': 48, 'C07': 32, 'C05': 64, 'C14': 1 | 64, 'C15': 0, 'C16': 128, 'C18': 0xFF}
 
 
 def fam_machine(v):
@@ -140,6 +157,10 @@ def fam_planstep(v):
 
 def fam_serial(v):
     return 'serial_model.cpp', [[]]
+
+
+def fam_serial_big(v):
+    return 'serial_big_model.cpp', [[]]
 
 
 def fam_serial_then_stream(v):
